@@ -14,11 +14,14 @@ core.register("C08", "Props.C08", "theories/Props/C08.vo",
                "C08_restart_needs_older_synced"])
 core.register("C14", "Props.C14", "theories/Props/C14.vo",
               ["C14_quiescent", "C14_drain_terminates", "C14_reopen_after_drop", "C14_reopen_after_drop_no_truncate",
-               "C14_flushed_dominates_acked", "C14_reopen_nonvacuous", "C14_quiescent_from", "C14_drain_terminates_from"])
+               "C14_flushed_dominates_acked", "C14_reopen_nonvacuous", "C14_quiescent_from", "C14_drain_terminates_from",
+               "C14_next_instance_contracts", "C14_incarnations_contracts", "C14_next_instance_starts",
+               "C14_idle_worker_may_track_two_files", "C14_two_incarnations"])
 core.register("C03", "Props.C03", "theories/Props/C03.vo", ["C03_prefix", "C03_nonvacuous", "C03_nonvacuous_purged"])
 core.register("C05", "Props.C05", "theories/Props/C05.vo",
               ["C05_refuted_gap", "C05_recovers_outside_known", "C05_process_crash_is_image",
-               "C05_recovers_outside_known_from", "C05_open_dir_whole", "C05_from_nonvacuous"])
+               "C05_recovers_outside_known_from", "C05_open_dir_whole", "C05_from_nonvacuous", "C05_reboot_next_instance",
+               "C05_crash_image_chained_from", "C05_recovers_again"])
 core.register("C07", "Props.C07", "theories/Props/C07.vo",
               ["C07_refuted_live", "C07_reads_total_outside_known", "C07_boundary_in_force_is_not_enough",
                "C07_reads_total_outside_known_L2", "C07_restart_reads_total", "C07_restart_continue", "C07_restart_refuted",
